@@ -56,6 +56,9 @@ pub struct Db {
     list_beyond: bool,
     /// 00001.primary holds the same bytes as 00000.primary (two certified files with equal digests)
     dup: bool,
+    /// the restored directory only holds the trios from this number on (a partial restoration)
+    #[serde(default)]
+    dir_from: u64,
 }
 
 fn std_name(n: u64, t: usize) -> String {
@@ -63,6 +66,10 @@ fn std_name(n: u64, t: usize) -> String {
 }
 
 fn honest_content(n: u64, t: usize, db: &Db) -> Vec<u8> {
+    if n >= 20 {
+        // databases with many trios (only their last trios are ever written to disk)
+        return format!("{n}{}", b"cps"[t] as char).into_bytes();
+    }
     let n_eff = if db.dup && n == 1 && t == 1 { 0 } else { n } as usize;
     let len = 4 + (n_eff * 3 + t) % 5;
     let mut v = vec![b'A' + n_eff as u8, b"cps"[t]];
@@ -143,7 +150,9 @@ impl Honest {
                     names.push(name.clone());
                     digest_of.insert(name.clone(), d.clone());
                     digests.push(d);
-                    files.insert(name, c);
+                    if n >= db.dir_from {
+                        files.insert(name, c);
+                    }
                 } else {
                     next_names.push(name.clone());
                     next_digest_of.insert(name.clone(), d);
@@ -227,6 +236,25 @@ enum DirOp {
     Decoy { parent: String, first: bool },
     /// make the directory agree, name by name, with the list the mirror serves
     ConformToList,
+    /// `<db>/immutable/<file>` is a symbolic link to a file outside the database that holds
+    /// uncertified bytes
+    SymlinkForeign { file: String },
+    /// ... a (relative) symbolic link to its sibling `to`: it reads as the bytes of another name
+    SymlinkSibling { file: String, to: String },
+    /// ... a symbolic link to a copy, outside the database, of the bytes certified for that name
+    SymlinkOwnCopy { file: String },
+    /// ... a directory
+    DirectoryInPlace { file: String },
+    /// the database directory is itself named `immutable`; `honest_at_root`: the honest immutable
+    /// files are also dropped at its root (`<db>/00000.chunk` ...), beside `<db>/immutable/`
+    DbNamedImmutable { honest_at_root: bool },
+}
+
+#[derive(Clone, Debug, PartialEq, Eq)]
+enum Kind {
+    LinkOutside,
+    LinkSibling(String),
+    Directory,
 }
 
 #[derive(Clone, Debug, Serialize, Deserialize, PartialEq, Eq, Hash)]
@@ -263,6 +291,11 @@ enum ListOp {
     /// the mirror re-labels the signed digest sequence: `names` (sorted as the client sorts them)
     /// are attached, in order, to the honest digests
     Relabel { names: Vec<String> },
+    /// the canonical names, attached to the signed digest sequence in the order of the names as
+    /// STRINGS (differs from the order of the numbers beyond 99999)
+    RelabelInStringOrder,
+    /// every entry renamed to the canonical name of the trio `by` numbers further
+    ShiftTrios { by: u64 },
     Raw(RawKind),
 }
 
@@ -270,6 +303,8 @@ enum ListOp {
 enum Op {
     Dir(DirOp),
     List(ListOp),
+    /// the (unsigned) snapshot message announces another beacon than the certified one
+    AnnounceBeacon(u64),
 }
 
 #[derive(Clone, Copy, Debug, Serialize, Deserialize, PartialEq, Eq, Hash)]
@@ -332,6 +367,11 @@ struct State {
     list: Vec<(String, String)>,
     raw: Option<RawKind>,
     decoys: Vec<(String, bool)>,
+    /// entries of `immutable/` that are not regular files (`dir` holds what reading them yields)
+    kinds: BTreeMap<String, Kind>,
+    db_named_immutable: Option<bool>,
+    /// beacon announced by the snapshot message
+    announced: u64,
 }
 
 fn resolve(dg: &Dg, h: &Honest, st: &State) -> String {
@@ -344,7 +384,15 @@ fn resolve(dg: &Dg, h: &Honest, st: &State) -> String {
 }
 
 fn apply(h: &Honest, ops: &[Op]) -> State {
-    let mut st = State { dir: h.files.clone(), list: h.list.clone(), raw: None, decoys: vec![] };
+    let mut st = State {
+        dir: h.files.clone(),
+        list: h.list.clone(),
+        raw: None,
+        decoys: vec![],
+        kinds: BTreeMap::new(),
+        db_named_immutable: None,
+        announced: h.db.last,
+    };
     for op in ops {
         match op {
             Op::Dir(d) => match d {
@@ -366,9 +414,11 @@ fn apply(h: &Honest, ops: &[Op]) -> State {
                     }
                 }
                 DirOp::Fresh { file } => {
+                    st.kinds.remove(file);
                     st.dir.insert(file.clone(), fresh_content(file));
                 }
                 DirOp::Delete { file } => {
+                    st.kinds.remove(file);
                     st.dir.remove(file);
                 }
                 DirOp::Swap { a, b } => {
@@ -413,18 +463,38 @@ fn apply(h: &Honest, ops: &[Op]) -> State {
                 DirOp::ConformToList => {
                     // last entry wins, as in any map built from the list
                     let served: BTreeMap<String, String> = st.list.iter().cloned().collect();
-                    for n in &h.names {
-                        st.dir.remove(n);
-                    }
+                    let top = h.db.last.max(st.announced);
+                    st.dir.retain(|name, _| imm_number(name).is_none_or(|n| n > top));
                     for (name, dg) in &served {
                         if let Some(n) = imm_number(name)
-                            && n <= h.db.last
+                            && n <= top
+                            && n >= h.db.dir_from
                             && let Some(c) = h.content_by_digest.get(dg)
                         {
                             st.dir.insert(name.clone(), c.clone());
                         }
                     }
                 }
+                DirOp::SymlinkForeign { file } => {
+                    st.dir.insert(file.clone(), fresh_content(file));
+                    st.kinds.insert(file.clone(), Kind::LinkOutside);
+                }
+                DirOp::SymlinkSibling { file, to } => {
+                    if let Some(c) = st.dir.get(to).cloned() {
+                        st.dir.insert(file.clone(), c);
+                        st.kinds.insert(file.clone(), Kind::LinkSibling(to.clone()));
+                    }
+                }
+                DirOp::SymlinkOwnCopy { file } => {
+                    if st.dir.contains_key(file) {
+                        st.kinds.insert(file.clone(), Kind::LinkOutside);
+                    }
+                }
+                DirOp::DirectoryInPlace { file } => {
+                    st.dir.remove(file);
+                    st.kinds.insert(file.clone(), Kind::Directory);
+                }
+                DirOp::DbNamedImmutable { honest_at_root } => st.db_named_immutable = Some(*honest_at_root),
             },
             Op::List(l) => match l {
                 ListOp::Rename { from, to } => {
@@ -474,8 +544,23 @@ fn apply(h: &Honest, ops: &[Op]) -> State {
                     out.extend(st.list.iter().filter(|e| entry_number(&e.0).is_none_or(|n| n > h.db.last)).cloned());
                     st.list = out;
                 }
+                ListOp::RelabelInStringOrder => {
+                    let mut sorted = h.names.clone();
+                    sorted.sort();
+                    let mut out: Vec<(String, String)> = sorted.into_iter().zip(h.digests.iter().cloned()).collect();
+                    out.extend(st.list.iter().filter(|e| entry_number(&e.0).is_none_or(|n| n > h.db.last)).cloned());
+                    st.list = out;
+                }
+                ListOp::ShiftTrios { by } => {
+                    for e in st.list.iter_mut() {
+                        if let (Some(n), Some((_, ext))) = (entry_number(&e.0), e.0.rsplit_once('.')) {
+                            e.0 = format!("{:05}.{ext}", n + by);
+                        }
+                    }
+                }
                 ListOp::Raw(k) => st.raw = Some(k.clone()),
             },
+            Op::AnnounceBeacon(n) => st.announced = *n,
         }
     }
     st
@@ -566,9 +651,12 @@ fn new_worker(base: PathBuf) -> Worker {
 }
 
 fn materialize(w: &Worker, h: &Honest, st: &State) -> PathBuf {
-    let db = w.base.join("db");
-    let _ = std::fs::remove_dir_all(&db);
+    for d in ["db", "immutable", "side"] {
+        let _ = std::fs::remove_dir_all(w.base.join(d));
+    }
+    let db = w.base.join(if st.db_named_immutable.is_some() { "immutable" } else { "db" });
     std::fs::create_dir_all(&db).expect("db dir");
+    let side = w.base.join("side");
     let decoy = |parent: &str| {
         let d = db.join(parent).join("immutable");
         std::fs::create_dir_all(&d).expect("decoy dir");
@@ -581,10 +669,29 @@ fn materialize(w: &Worker, h: &Honest, st: &State) -> PathBuf {
             decoy(p);
         }
     }
+    if st.db_named_immutable == Some(true) {
+        for (n, c) in &h.files {
+            std::fs::write(db.join(n), c).expect("root file");
+        }
+    }
     let imm = db.join("immutable");
     std::fs::create_dir_all(&imm).expect("immutable dir");
     for (n, c) in &st.dir {
-        std::fs::write(imm.join(n), c).expect("immutable file");
+        match st.kinds.get(n) {
+            None => std::fs::write(imm.join(n), c).expect("immutable file"),
+            Some(Kind::LinkOutside) => {
+                std::fs::create_dir_all(&side).expect("side dir");
+                std::fs::write(side.join(n), c).expect("side file");
+                std::os::unix::fs::symlink(side.join(n), imm.join(n)).expect("symlink");
+            }
+            Some(Kind::LinkSibling(to)) => std::os::unix::fs::symlink(to, imm.join(n)).expect("symlink"),
+            Some(Kind::Directory) => {}
+        }
+    }
+    for (n, k) in &st.kinds {
+        if *k == Kind::Directory {
+            std::fs::create_dir_all(imm.join(n)).expect("directory in place of a file");
+        }
     }
     for (p, first) in &st.decoys {
         if !*first {
@@ -646,6 +753,12 @@ fn judge_accepted(
         for n in lo..=hi {
             for t in 0..3 {
                 let name = std_name(n, t);
+                if st.kinds.get(&name) == Some(&Kind::Directory) {
+                    return Some((
+                        "C10/non-regular-entry-in-place-of-immutable-file-not-verified",
+                        format!("a directory stands where {name} should be: the file does not exist, gaps were not allowed, and verification succeeded"),
+                    ));
+                }
                 if !st.dir.contains_key(&name) {
                     return Some((
                         "C10/missing-file-accepted",
@@ -679,8 +792,41 @@ fn judge_accepted(
             }
         }
     }
+    let non_regular: Vec<&String> = uncertified_bytes
+        .iter()
+        .chain(&wrong_name_vs_served)
+        .chain(&name_unknown_to_served)
+        .chain(&agrees_with_served_only)
+        .filter(|n| st.kinds.contains_key(*n))
+        .collect();
+    if !non_regular.is_empty() {
+        return Some((
+            "C10/non-regular-entry-in-place-of-immutable-file-not-verified",
+            format!(
+                "{non_regular:?} are symbolic links: reading them (what a Cardano node does) does not yield the bytes certified for their names, and verification succeeded"
+            ),
+        ));
+    }
+    let any_bad = !(uncertified_bytes.is_empty() && wrong_name_vs_served.is_empty() && name_unknown_to_served.is_empty() && agrees_with_served_only.is_empty());
+    if any_bad && st.announced != h.db.last {
+        return Some((
+            "C10/announced-beacon-not-authenticated",
+            format!(
+                "the snapshot message announces beacon {} while the certificate signs the root of trios 0..={}; uncertified for their name: {:?}, and verification succeeded",
+                st.announced,
+                h.db.last,
+                uncertified_bytes.iter().chain(&wrong_name_vs_served).chain(&name_unknown_to_served).chain(&agrees_with_served_only).collect::<Vec<_>>()
+            ),
+        ));
+    }
     if !uncertified_bytes.is_empty() {
-        let key = if st.decoys.is_empty() { "C10/uncertified-content-accepted" } else { "C10/decoy-immutable-directory-verified" };
+        let key = if st.db_named_immutable.is_some() {
+            "C10/database-directory-named-immutable-digested-instead-of-its-child"
+        } else if st.decoys.is_empty() {
+            "C10/uncertified-content-accepted"
+        } else {
+            "C10/decoy-immutable-directory-verified"
+        };
         return Some((key, format!("{uncertified_bytes:?} hold bytes that hash to no certified digest at all, and verification succeeded")));
     }
     if !wrong_name_vs_served.is_empty() {
@@ -700,19 +846,53 @@ fn judge_accepted(
         ));
     }
     if !agrees_with_served_only.is_empty() {
+        // which retained names let the mirror re-attach the signed digests?
+        let is_canonical = |k: &String| imm_number(k).is_some_and(|n| (0..3).any(|t| std_name(n, t) == *k));
+        let odd: Vec<&String> = retained.keys().filter(|k| !is_canonical(k)).collect();
+        let base_is_canonical = |k: &&String| {
+            let b = k.trim_end_matches(['/', '.']).rsplit('/').next().unwrap_or("").to_string();
+            is_canonical(&b)
+        };
+        let key = if odd.is_empty() {
+            "C10/signed-leaves-ordered-by-name-string-not-by-number"
+        } else if odd.iter().all(base_is_canonical) {
+            "C10/served-name-with-directory-component-retained"
+        } else {
+            "C10/served-list-names-not-bound-to-signed-digests"
+        };
         return Some((
-            "C10/served-list-names-not-bound-to-signed-digests",
+            key,
             format!(
-                "{agrees_with_served_only:?} hold bytes certified for another file; they agree with the SERVED list, which attaches the signed digest sequence to other names and still reproduces the signed root"
+                "{agrees_with_served_only:?} hold bytes certified for another file; they agree with the SERVED list, which attaches the signed digest sequence to other names (retained names that are not canonical: {odd:?}) and still reproduces the signed root"
             ),
         ));
     }
     None
 }
 
-fn run_case(w: &Worker, h: &Honest, case: &Case, ranges: &[Rng]) -> Report {
+fn ranges_for(db: &Db, announced: u64, honest_case: bool) -> Vec<Rng> {
+    if db.dir_from > 0 {
+        // a partial restoration: the ranges inside what was restored
+        let mut v = vec![Rng::From(db.dir_from), Rng::Range(db.dir_from, announced)];
+        for n in db.dir_from..=announced {
+            v.push(Rng::Range(n, n));
+        }
+        return v;
+    }
+    let mut ranges = all_ranges(announced);
+    if honest_case {
+        ranges.extend(invalid_ranges(announced));
+    }
+    ranges
+}
+
+fn run_case(w: &Worker, h: &Honest, case: &Case) -> Report {
     let mut rep = Report::new("exploration", "");
     let st = apply(h, &case.ops);
+    let ranges = ranges_for(&h.db, st.announced, case.ops.is_empty());
+    let mut snapshot = h.snapshot.clone();
+    snapshot.beacon.immutable_file_number = st.announced;
+    let snapshot = &snapshot;
     let db_dir = materialize(w, h, &st);
     set_mirror(w, &st);
     let honest_case = case.ops.is_empty();
@@ -722,7 +902,7 @@ fn run_case(w: &Worker, h: &Honest, case: &Case, ranges: &[Rng]) -> Report {
     };
 
     // step 1 — the digest list
-    let dl = catch(|| w.rt.block_on(cdb.download_and_verify_digests(&h.certificate, &h.snapshot)));
+    let dl = catch(|| w.rt.block_on(cdb.download_and_verify_digests(&h.certificate, snapshot)));
     let verified = match dl {
         Err(p) => {
             rep.eval();
@@ -745,7 +925,7 @@ fn run_case(w: &Worker, h: &Honest, case: &Case, ranges: &[Rng]) -> Report {
             rep.sample(json!({"case": replay_of(None, None), "outcome": format!("digest list rejected: {msg}")}));
             if honest_case {
                 rep.violation(
-                    "C10/honest-digest-list-rejected",
+                    if h.db.last >= 100_000 { "C10/signed-leaves-ordered-by-name-string-not-by-number" } else { "C10/honest-digest-list-rejected" },
                     format!("download_and_verify_digests refuses the honest list: {msg}; {}", describe(case)),
                     replay_of(None, None),
                 );
@@ -756,32 +936,37 @@ fn run_case(w: &Worker, h: &Honest, case: &Case, ranges: &[Rng]) -> Report {
     };
     rep.outcome("digest-list:accepted");
     // clause 1: what the client retained is the signed leaf sequence
-    let retained: Vec<String> = verified.digests.values().cloned().collect();
+    // (the root of the client's tree is the signed one and the retained digests are the signed ones;
+    // in which order the client's map iterates over them is its own business)
+    let mut retained: Vec<String> = verified.digests.values().cloned().collect();
+    retained.sort();
+    let mut signed_sorted = h.digests.clone();
+    signed_sorted.sort();
     let tree_root = verified.merkle_tree.compute_root().map(|r| r.to_hex()).unwrap_or_default();
-    if retained != h.digests || tree_root != h.root_hex {
+    if retained != signed_sorted || tree_root != h.root_hex {
         rep.eval();
         rep.violation(
             "C10/digest-list-not-reproducing-signed-root-accepted",
             format!(
-                "download_and_verify_digests accepted a list whose retained digests {:?} (tree root {tree_root}) are not the signed sequence (root {}); {}",
-                verified.digests, h.root_hex, describe(case)
+                "download_and_verify_digests accepted a list whose retained digests {} (tree root {tree_root}) are not the signed sequence (root {}); {}",
+                format!("{:?}", verified.digests).chars().take(600).collect::<String>(), h.root_hex, describe(case)
             ),
             replay_of(None, None),
         );
     }
 
     // step 2..4 — the directory, for every range and both settings of allow_missing
-    for &r in ranges {
+    for &r in &ranges {
         for allow in [false, true] {
             if case.range.is_some_and(|x| x != r) || case.allow_missing.is_some_and(|x| x != allow) {
                 continue;
             }
             rep.eval();
-            let reference = r.reference(h.db.last);
+            let reference = r.reference(st.announced);
             let res = catch(|| {
                 w.rt.block_on(async {
                     let proof = cdb
-                        .verify_cardano_database(&h.certificate, &h.snapshot, &r.real(), allow, &db_dir, &verified)
+                        .verify_cardano_database(&h.certificate, snapshot, &r.real(), allow, &db_dir, &verified)
                         .await?;
                     let msg = MessageBuilder::new().compute_cardano_database_message(&h.certificate, &proof).await;
                     Ok::<_, CardanoDatabaseVerificationError>(msg.map(|m| h.certificate.match_message(&m)))
@@ -979,6 +1164,24 @@ fn dir_singles(h: &Honest, reduced: bool) -> Vec<DirOp> {
     if h.db.next_trio {
         v.push(DirOp::CopyTrio { from: h.db.last + 1, to: h.db.last });
     }
+    if !reduced {
+        // entries that are not regular files
+        for (i, f) in c.iter().enumerate() {
+            v.push(DirOp::SymlinkForeign { file: f.clone() });
+            v.push(DirOp::SymlinkOwnCopy { file: f.clone() });
+            v.push(DirOp::DirectoryInPlace { file: f.clone() });
+            let other = &c[(i + 1) % c.len()];
+            if other != f {
+                v.push(DirOp::SymlinkSibling { file: f.clone(), to: other.clone() });
+            }
+            if h.db.next_trio {
+                v.push(DirOp::SymlinkSibling { file: f.clone(), to: h.next_names[i % 3].clone() });
+            }
+        }
+        for honest_at_root in [false, true] {
+            v.push(DirOp::DbNamedImmutable { honest_at_root });
+        }
+    }
     v
 }
 
@@ -995,7 +1198,14 @@ fn list_singles(h: &Honest, reduced: bool) -> Vec<ListOp> {
             std_name(h.db.last + 2, t),
             format!("abc.{}", TYPES[t]),
         ];
+        // names whose last path component is canonical
+        tos.push(format!("x/{f}"));
+        tos.push(format!("./{f}"));
         if !reduced {
+            tos.push(format!("/{f}"));
+            tos.push(format!("{f}/"));
+            tos.push(format!("{f}/."));
+            tos.push(format!("../{f}"));
             tos.push(format!("{n:06}.{}", TYPES[t]));
             tos.push(format!("{n:05}"));
             if other != f {
@@ -1032,6 +1242,10 @@ fn list_singles(h: &Honest, reduced: bool) -> Vec<ListOp> {
         // a foreign entry under another spelling of the number
         v.push(ListOp::Add { name: format!("{n}.{}", TYPES[t]), digest: Dg::Of(f.clone()) });
         if !reduced {
+            v.push(ListOp::Add { name: format!("x/{f}"), digest: Dg::Of(f.clone()) });
+            v.push(ListOp::Add { name: format!("./{f}"), digest: Dg::Fresh(f.clone()) });
+        }
+        if !reduced {
             v.push(ListOp::Add { name: format!("{n}.{}", TYPES[t]), digest: Dg::Fresh(f.clone()) });
             v.push(ListOp::Add { name: format!("{n:05}.{}x", TYPES[t]), digest: Dg::Fresh(f.clone()) });
         }
@@ -1052,6 +1266,8 @@ fn list_singles(h: &Honest, reduced: bool) -> Vec<ListOp> {
             }
         }
     }
+    v.push(ListOp::ShiftTrios { by: 1 });
+    v.push(ListOp::RelabelInStringOrder);
     v.push(ListOp::Reverse);
     v.push(ListOp::Rotate);
     let len = h.list.len();
@@ -1076,6 +1292,9 @@ fn relabel_pool(last: u64) -> Vec<String> {
         for t in 0..3 {
             v.push(std_name(n, t));
             v.push(format!("{n}.{}", TYPES[t]));
+            // inert names: the last path component is canonical, no file can ever bear them
+            v.push(format!("./{}", std_name(n, t)));
+            v.push(format!("x/{}", std_name(n, t)));
         }
         v.push(format!("{n:05}.aaa"));
         v.push(format!("{n:05}.d"));
@@ -1100,6 +1319,33 @@ fn hostile_families(h: &Honest) -> Vec<Vec<Op>> {
     }
     for first in [true, false] {
         v.push(vec![Op::Dir(DirOp::Decoy { parent: "ledger".into(), first })]);
+    }
+    // the database directory is itself named `immutable`
+    for honest_at_root in [true, false] {
+        for f in c {
+            v.push(vec![Op::Dir(DirOp::DbNamedImmutable { honest_at_root }), Op::Dir(DirOp::Fresh { file: f.clone() })]);
+            v.push(vec![Op::Dir(DirOp::DbNamedImmutable { honest_at_root }), Op::Dir(DirOp::Delete { file: f.clone() })]);
+        }
+        v.push(vec![Op::Dir(DirOp::DbNamedImmutable { honest_at_root }), Op::Dir(DirOp::Decoy { parent: "ledger".into(), first: false })]);
+    }
+    // the snapshot message announces another beacon than the certified one (with the honest list,
+    // with the list renamed to the next trios, with the directory conforming to it)
+    let l = h.db.last;
+    let mut announced = vec![l + 1, l + 2];
+    if l >= 1 {
+        announced.push(l - 1);
+    }
+    for a in announced {
+        v.push(vec![Op::AnnounceBeacon(a)]);
+        v.push(vec![Op::AnnounceBeacon(a), Op::Dir(DirOp::ConformToList)]);
+        if a > l {
+            let by = a - l;
+            v.push(vec![Op::AnnounceBeacon(a), Op::List(ListOp::ShiftTrios { by })]);
+            v.push(vec![Op::AnnounceBeacon(a), Op::List(ListOp::ShiftTrios { by }), Op::Dir(DirOp::ConformToList)]);
+        }
+        for f in c.iter().take(3) {
+            v.push(vec![Op::AnnounceBeacon(a), Op::Dir(DirOp::Fresh { file: f.clone() })]);
+        }
     }
     for (i, a) in c.iter().enumerate() {
         for (j, b) in c.iter().enumerate() {
@@ -1142,6 +1388,18 @@ fn hostile_families(h: &Honest) -> Vec<Vec<Op>> {
         v.push(vec![Op::List(ListOp::Relabel { names }), Op::Dir(DirOp::ConformToList)]);
     }
     v
+}
+
+/// the database of more than 99999 trios: the honest case, and the list whose canonical names carry
+/// the signed digests in the order of the names as strings, with the directory conforming to it
+fn cases_for_many_trios(db: &Db) -> Vec<Case> {
+    let mk = |ops: Vec<Op>| Case { db: db.clone(), ops, range: None, allow_missing: None };
+    vec![
+        mk(vec![]),
+        mk(vec![Op::List(ListOp::RelabelInStringOrder)]),
+        mk(vec![Op::List(ListOp::RelabelInStringOrder), Op::Dir(DirOp::ConformToList)]),
+        mk(vec![Op::Dir(DirOp::Swap { a: std_name(db.last - 1, 0), b: std_name(db.last, 0) })]),
+    ]
 }
 
 fn cases_for(db: &Db, h: &Honest, depth2: bool) -> Vec<Case> {
@@ -1251,7 +1509,7 @@ pub fn run(ctx: &Ctx) -> ! {
     // one client per worker thread, each with its own mirror, runtime, directory and digest temp dir
     let mut workers = vec![];
     let mut seen_tmp: BTreeSet<PathBuf> = BTreeSet::new();
-    let probe_db = Db { last: 0, next_trio: true, list_beyond: false, dup: false };
+    let probe_db = Db { last: 0, next_trio: true, list_beyond: false, dup: false, dir_from: 0 };
     let probe_h = Honest::new(&probe_db);
     for i in 0..threads {
         let mut tries = 0;
@@ -1292,11 +1550,10 @@ pub fn run(ctx: &Ctx) -> ! {
             }
         };
         let h = Honest::new(&case.db);
-        let ranges = all_ranges(case.db.last);
-        let r = pool.with(|w| run_case(w, &h, &case, &ranges));
+        let r = pool.with(|w| run_case(w, &h, &case));
         rep.merge(r);
         let honest = Case { db: case.db.clone(), ops: vec![], range: None, allow_missing: None };
-        let r = pool.with(|w| run_case(w, &h, &honest, &ranges));
+        let r = pool.with(|w| run_case(w, &h, &honest));
         rep.merge(r);
         rep.finish(ctx);
     }
@@ -1306,12 +1563,17 @@ pub fn run(ctx: &Ctx) -> ! {
     let mut dbs = vec![];
     for last in 0..=max_last {
         for (next_trio, list_beyond) in [(false, false), (true, false), (true, true), (false, true)] {
-            dbs.push(Db { last, next_trio, list_beyond, dup: false });
+            dbs.push(Db { last, next_trio, list_beyond, dup: false, dir_from: 0 });
         }
     }
-    dbs.push(Db { last: 1, next_trio: true, list_beyond: true, dup: true });
+    dbs.push(Db { last: 1, next_trio: true, list_beyond: true, dup: true, dir_from: 0 });
     if max_last >= 2 {
-        dbs.push(Db { last: 2, next_trio: true, list_beyond: false, dup: true });
+        dbs.push(Db { last: 2, next_trio: true, list_beyond: false, dup: true, dir_from: 0 });
+    }
+    if ctx.tier == mc_core::Tier::Thorough {
+        // 100001 trios: names of six digits sort, as strings, before names of five digits. Only the
+        // last two trios are restored (a partial restoration), the list and the tree are complete.
+        dbs.push(Db { last: 100_000, next_trio: false, list_beyond: false, dup: false, dir_from: 99_999 });
     }
     let honests: Vec<Honest> = dbs.iter().map(Honest::new).collect();
 
@@ -1320,7 +1582,7 @@ pub fn run(ctx: &Ctx) -> ! {
     // the reference for "the certified file" and the client's verdicts below are judged against
     // them; the difference is recorded in the evidence)
     let mut self_check_differences = vec![];
-    for h in &honests {
+    for h in honests.iter().filter(|h| h.db.dir_from == 0) {
         if let Err(e) = pool.with(|w| self_check(w, h)) {
             self_check_differences.push(e.chars().take(400).collect::<String>());
         }
@@ -1336,8 +1598,8 @@ pub fn run(ctx: &Ctx) -> ! {
     let mut per_db = vec![];
     for (i, h) in honests.iter().enumerate() {
         let depth2 = depth2_max_last.is_some_and(|m| h.db.last <= m) && h.db.next_trio && !h.db.list_beyond && !h.db.dup;
-        let cs = cases_for(&h.db, h, depth2);
-        per_db.push(json!({"db": h.db, "tamperings": cs.len(), "pairs_included": depth2, "valid_ranges": all_ranges(h.db.last).len()}));
+        let cs = if h.db.dir_from > 0 { cases_for_many_trios(&h.db) } else { cases_for(&h.db, h, depth2) };
+        per_db.push(json!({"db": h.db, "tamperings": cs.len(), "pairs_included": depth2, "valid_ranges": ranges_for(&h.db, h.db.last, false).len()}));
         for c in cs {
             work.push((i, c));
         }
@@ -1359,11 +1621,7 @@ pub fn run(ctx: &Ctx) -> ! {
 
     let parts = par_map(&work, threads, |_, (i, case)| {
         let h = &honests[*i];
-        let mut ranges = all_ranges(h.db.last);
-        if case.ops.is_empty() {
-            ranges.extend(invalid_ranges(h.db.last));
-        }
-        pool.with(|w| run_case(w, h, case, &ranges))
+        pool.with(|w| run_case(w, h, case))
     });
     // samples: evenly spaced over the enumeration instead of its first few members
     let mut all_samples = vec![];
@@ -1384,6 +1642,8 @@ pub fn run(ctx: &Ctx) -> ! {
     rep.assume("the certificate handed to the client is the validated one (chain validation is C03); its signed message is ProtocolMessage::compute_hash over parts that include the honest Merkle root");
     rep.assume("MKTree / SHA-256 are collision free on the enumerated values (C09 covers the tree); 'the list reproduces the signed root' is judged as: the digest sequence the client retained equals the signed sequence");
     rep.assume("an 'immutable file of the range' is a directory entry of <db>/immutable with extension chunk|primary|secondary whose stem is a plain decimal number inside the range; other entries carry no obligation");
+    rep.assume("beyond the letter of the quantifier, one unsigned field of the snapshot message (the announced beacon, +1/+2/-1) is tampered in a dedicated family; ranges are then read against the announced beacon and files numbered above the certified beacon count as uncertified");
+    rep.assume("a symbolic link in place of an immutable file is judged by the bytes that reading it yields (what a Cardano node gets); a directory in its place is an absent file");
     rep.assume("directories live on tmpfs; the client's digest temp dir is redirected there through TMPDIR");
     rep.finish(ctx)
 }
